@@ -1007,6 +1007,13 @@ func (rn *RNode) DeAnchor() (err error) {
 // them with what they point to.  All Anchor fields (these are used to mark
 // anchor definitions) are cleared.
 func deAnchor(yn *yaml.Node) (res *yaml.Node, err error) {
+	return deAnchorRec(yn, map[*yaml.Node]bool{})
+}
+
+// deAnchorRec does the work of deAnchor; open holds the collection nodes whose
+// content is being processed, so that an alias to one of them (a node that
+// contains itself, e.g. `&x {b: *x}`) is reported instead of followed forever.
+func deAnchorRec(yn *yaml.Node, open map[*yaml.Node]bool) (res *yaml.Node, err error) {
 	if yn == nil {
 		return nil, nil
 	}
@@ -1024,7 +1031,10 @@ func deAnchor(yn *yaml.Node) (res *yaml.Node, err error) {
 	case yaml.ScalarNode:
 		return yn, nil
 	case yaml.AliasNode:
-		result, err := deAnchor(yn.Alias)
+		if open[yn.Alias] {
+			return nil, fmt.Errorf("alias %q refers to a node that contains it", yn.Value)
+		}
+		result, err := deAnchorRec(yn.Alias, open)
 		if err != nil {
 			return nil, err
 		}
@@ -1040,8 +1050,10 @@ func deAnchor(yn *yaml.Node) (res *yaml.Node, err error) {
 		}
 		fallthrough
 	case yaml.DocumentNode, yaml.SequenceNode:
+		open[yn] = true
+		defer delete(open, yn)
 		for i := range yn.Content {
-			yn.Content[i], err = deAnchor(yn.Content[i])
+			yn.Content[i], err = deAnchorRec(yn.Content[i], open)
 			if err != nil {
 				return nil, err
 			}
